@@ -199,7 +199,9 @@ Definition readBodyWithStreaming (cl max : Z) (b : bytes) : sres :=
    tryReadTrailer sees the whole remaining input:
      empty input                      -> io.EOF
      input starts with CRLF           -> no trailer fields, 2 bytes consumed
-     no CRLFCRLF in the input         -> ErrNeedMore until EOF -> io.EOF
+     no CRLFCRLF in the input         -> ErrNeedMore until the reader hits EOF inside the trailer
+                                         -> io.ErrUnexpectedEOF (io.EOF is reserved for "closed before the
+                                            first byte of the trailer")
      otherwise                        -> the block up to and including the first CRLFCRLF goes
                                          to parseTrailer (headerScanner: Model/Lines.v), which
                                          consumes k <= |block| bytes or fails.
@@ -218,7 +220,9 @@ Fixpoint index_crlfcrlf (b : bytes) (i : Z) : option Z :=
 
 Inductive trres :=
 | TrOk (rest : bytes)                  (* ReadTrailer returned nil *)
-| TrEOF                                (* io.EOF; callers turn it into ErrBrokenChunk{io.ErrUnexpectedEOF} *)
+| TrEOF                                (* io.EOF: nothing at all behind the last chunk; callers turn it into
+                                          ErrBrokenChunk{io.ErrUnexpectedEOF} *)
+| TrTruncated                          (* io.ErrUnexpectedEOF: the input ends inside the trailer section *)
 | TrFields (block rest : bytes).       (* a non-empty trailer block: parseTrailer decides *)
 
 Definition has_crlf_prefix (b : bytes) : bool :=
@@ -230,7 +234,7 @@ Definition readTrailer (b : bytes) : trres :=
   | _ =>
       if has_crlf_prefix b then TrOk (bdrop 2 b)
       else match index_crlfcrlf b 0 with
-           | None => TrEOF
+           | None => TrTruncated
            | Some i => TrFields (btake (i + 4) b) (bdrop (i + 4) b)
            end
   end.
@@ -245,6 +249,7 @@ Definition after_trailer (parseTr : trailer_parser) (body r : bytes) (pk : Z) : 
   match readTrailer r with
   | TrOk r' => BOk body r' pk
   | TrEOF => BErr EBrokenChunk body pk
+  | TrTruncated => BErr EUnexpectedEOF body pk
   | TrFields block r' =>
       match parseTr block with
       | Some k => BOk body (bdrop k block ++ r') pk
